@@ -1599,9 +1599,9 @@ p256_mulgen(p256_jacobian *P, const unsigned char *k, size_t klen)
 
 /*
  * Return 1 if all of the following hold:
- *  - klen <= 32
  *  - k != 0
- *  - k is lower than the curve order
+ *  - k is lower than the curve order (in particular, if klen > 32,
+ *    then the extra leading bytes are all zero)
  * Otherwise, return 0.
  *
  * Constant-time behaviour: only klen may be observable.
@@ -1609,12 +1609,18 @@ p256_mulgen(p256_jacobian *P, const unsigned char *k, size_t klen)
 static uint32_t
 check_scalar(const unsigned char *k, size_t klen)
 {
-	uint32_t z;
+	uint32_t z, x;
 	int32_t c;
 	size_t u;
 
-	if (klen > 32) {
-		return 0;
+	/*
+	 * The unsigned big-endian encoding may use extra leading bytes of
+	 * value zero, as with the other implementations.
+	 */
+	x = 0;
+	while (klen > 32) {
+		x |= *k ++;
+		klen --;
 	}
 	z = 0;
 	for (u = 0; u < klen; u ++) {
@@ -1628,7 +1634,7 @@ check_scalar(const unsigned char *k, size_t klen)
 	} else {
 		c = -1;
 	}
-	return NEQ(z, 0) & LT0(c);
+	return NEQ(z, 0) & LT0(c) & EQ(x, 0);
 }
 
 static uint32_t
